@@ -262,6 +262,12 @@ def specs_for(stage):
             yield {"funcs": [copy.deepcopy(f0)], "deco": "dataclass"}
             yield {"funcs": [copy.deepcopy(f0), {"name": "f1", "params": ["y"], "outs": ["o1"], "sigdef": {"y": "d1"}}], "deco": "dataclass"}
             yield {"funcs": [copy.deepcopy(f0), {"name": "f1", "params": ["o0", "y"], "outs": ["o1"], "sigdef": {"y": "d1"}}], "deco": "dataclass"}
+    elif stage == "N3-two-defaults-on-one-produced-name":
+        # two consumers declare DIFFERENT signature defaults for a name that a third function produces (the defaults are never
+        # used): a valid pipeline in every listing order
+        yield {"funcs": [{"name": "f0", "params": ["x"], "outs": ["o0"]},
+                         {"name": "f1", "params": ["o0"], "outs": ["o1"], "sigdef": {"o0": "d1"}},
+                         {"name": "f2", "params": ["o0", "y"], "outs": ["o2"], "sigdef": {"o0": "d2"}}], "deco": "two-defaults-on-one-produced-name"}
     elif stage == "N2-special-names":
         # valid but unusual parameter names: a leading underscore, a trailing digit, one name a prefix of the other
         for a, b in (("_x", "y"), ("x", "x1"), ("_x", "_x_")):
@@ -286,9 +292,9 @@ def specs_for(stage):
         yield from gen_dag.base_specs(4, max_params=2, nouts=(1,), min_params=1)
 
 
-STAGES = {"quick": ["N1", "N2", "N2-three-output-producer", "N2-decorated", "N2-rename-combos", "N2-special-names", "N2-dataclass-function", "N3-shared-none", "N3"],
-          "thorough": ["N1", "N2", "N2-three-output-producer", "N2-decorated", "N2-rename-combos", "N2-special-names", "N2-dataclass-function", "N3-shared-none", "N3", "N3-decorated", "N4-single-output"]}
-CHUNK = {"N2-dataclass-function": 6, "N2-special-names": 9, "N2-rename-combos": 60, "N3-shared-none": 20, "N2-three-output-producer": 8, "N1": 8, "N2": 16, "N2-decorated": 40, "N3": 40, "N3-decorated": 200, "N4-single-output": 30}
+STAGES = {"quick": ["N1", "N2", "N2-three-output-producer", "N2-decorated", "N2-rename-combos", "N2-special-names", "N2-dataclass-function", "N3-two-defaults-on-one-produced-name", "N3-shared-none", "N3"],
+          "thorough": ["N1", "N2", "N2-three-output-producer", "N2-decorated", "N2-rename-combos", "N2-special-names", "N2-dataclass-function", "N3-two-defaults-on-one-produced-name", "N3-shared-none", "N3", "N3-decorated", "N4-single-output"]}
+CHUNK = {"N3-two-defaults-on-one-produced-name": 1, "N2-dataclass-function": 6, "N2-special-names": 9, "N2-rename-combos": 60, "N3-shared-none": 20, "N2-three-output-producer": 8, "N1": 8, "N2": 16, "N2-decorated": 40, "N3": 40, "N3-decorated": 200, "N4-single-output": 30}
 
 
 def plan(tier, seed):
